@@ -84,9 +84,15 @@ func (s *vStore) GetNodesByPod(_ context.Context, f *types.NodeFilter, _ ...stor
 	return out, nil
 }
 
-// ListNodeWorkloads only serves the fire-and-forget remap (skipped under gosym).
-func (s *vStore) ListNodeWorkloads(context.Context, string, map[string]string) ([]*types.Workload, error) {
-	return nil, nil
+// ListNodeWorkloads serves RemoveNode's emptiness check (and the skipped remap).
+func (s *vStore) ListNodeWorkloads(_ context.Context, node string, _ map[string]string) ([]*types.Workload, error) {
+	var out []*types.Workload
+	for _, id := range []string{"w1", "w2", "w3"} {
+		if wl, ok := s.workloads[id]; ok && wl.Nodename == node {
+			out = append(out, wl)
+		}
+	}
+	return out, nil
 }
 
 func (s *vStore) GetWorkloads(_ context.Context, ids []string) ([]*types.Workload, error) {
